@@ -1,6 +1,7 @@
 (* C18 - capability tests select the IEEE-assigned capability bit.  Statements only. *)
 From Coq Require Import List ZArith String.
-From LW Require Import Base.Tok Gen.Consts Gen.Macros Spec.CapSpec Model.Macro Proofs.MacroProofs.
+From LW Require Import Base.Tok Gen.Consts Gen.Macros Spec.CapSpec Spec.CapGeneralSpec Model.Macro
+  Proofs.MacroProofs Proofs.MacroGeneral.
 Import ListNotations.
 Local Open Scope Z_scope.
 
@@ -31,3 +32,39 @@ Theorem c18_distinct : NoDup (map snd enum_libwifi_capabilities) /\
   List.length enum_libwifi_capabilities = List.length ieee_cap_bits.
 Proof. exact cap_distinct. Qed.
 Print Assumptions c18_distinct.
+
+(* HOWEVER THE ARGUMENT EXPRESSION IS WRITTEN: for every published capability name and EVERY argument -
+   any token list [arg] that is one expression of the modelled C grammar ([parse_expr arg = Some e]: all
+   of C's unary, binary and conditional operators, parentheses, identifiers, literals) and mentions no
+   macro of the library ([arg_ok]) - in every environment in which the capability names denote their
+   IEEE bits and the argument has a value [v]: the macro invocation, expanded token by token and parsed
+   with C's precedence rules, has a value, and it is non-zero exactly when the IEEE-assigned bit is set
+   in [v].  ([v] ranges over all integers: no 16-bit assumption is needed here.) *)
+Theorem c18_any_expression : forall name bit arg e env v,
+  In (name, bit) ieee_cap_bits ->
+  arg_ok arg -> parse_expr arg = Some e ->
+  (forall s b, In (s, b) ieee_cap_bits -> env s = Some b) ->
+  eval env e = Some v ->
+  exists r, check_cap_eval arg name env = Some r /\ (r <> 0 <-> Z.testbit v bit = true).
+Proof. exact any_expression_ok. Qed.
+Print Assumptions c18_any_expression.
+
+(* ... in particular with operand variables a, b, c and the header's enumerators, as in [c18_shapes] *)
+Theorem c18_any_expression_env_of : forall name bit arg e a b c v,
+  In (name, bit) ieee_cap_bits ->
+  arg_ok arg -> parse_expr arg = Some e ->
+  eval (env_of a b c) e = Some v ->
+  exists r, check_cap_eval arg name (env_of a b c) = Some r /\ (r <> 0 <-> Z.testbit v bit = true).
+Proof. exact any_expression_env_of. Qed.
+Print Assumptions c18_any_expression_env_of.
+
+(* the hypotheses are satisfiable by a non-trivial argument, [c ? a | 256 : ( b ^ a ) << 1] *)
+Theorem c18_any_expression_example : arg_ok example_arg /\ exists e v,
+  parse_expr example_arg = Some e /\ eval (env_of 4660 22136 0) e = Some v.
+Proof. exact example_satisfiable. Qed.
+Print Assumptions c18_any_expression_example.
+
+(* the fuel of [parse_expr] is never the reason for a rejection *)
+Theorem c18_parse_fuel : forall f ts e, parse_cond f ts = Some (e, []) -> parse_expr ts = Some e.
+Proof. exact parse_expr_fuel_complete. Qed.
+Print Assumptions c18_parse_fuel.
